@@ -1,5 +1,4 @@
 CONSTANTS
-  MccPairs <- MCMccPairs
   LenOf <- LenThorough
 SPECIFICATION Spec
 INVARIANTS StepOK GlobalOK FinalOK Emit
